@@ -37,6 +37,9 @@ enum FStep {
     Join(usize),
     /// panic out of the thread function (thread crash)
     Die,
+    /// all threads of the plan meet here, then run their operations at the
+    /// same time (flat shape only)
+    Barrier,
 }
 
 struct FThread {
@@ -45,6 +48,8 @@ struct FThread {
 }
 
 type Errors = Arc<Mutex<Vec<String>>>;
+
+static START: std::sync::OnceLock<std::sync::Barrier> = std::sync::OnceLock::new();
 
 struct FreeProbe {
     armed: Option<(usize, u8, Errors)>,
@@ -140,6 +145,11 @@ fn run_thread(id: usize, lists: Arc<Vec<FThread>>, errs: Errors) {
                 }
                 std::panic::panic_any(DieMarker);
             }
+            FStep::Barrier => {
+                if let Some(b) = START.get() {
+                    b.wait();
+                }
+            }
         }
     }
     for (_, (h, _)) in handles.drain() {
@@ -161,12 +171,16 @@ fn free_cfg() -> Cfg {
         f_sink_err: false,
         f_dtor: false,
         f_reent: false,
+        f_yield: false,
         personality: 0,
         spawn_shape: 0,
         builder_pct: 0,
         ref_per_event: false,
+        ref_process: false,
         distinct_mode_pct: 100,
         pct_depth: 1,
+        churn: None,
+        repeat_pct: 0,
     }
 }
 
@@ -223,10 +237,17 @@ fn build(seed: u64, plan_ix: u64, steps_per_thread: usize) -> Vec<FThread> {
     // wiring
     match shape {
         0 => {
-            // flat: root spawns both children after its first set
+            // flat: root spawns both children after its first set; then all
+            // three meet at a barrier and run their operations concurrently
             let at = lists[0].steps.iter().position(|s| matches!(s, FStep::Set(_))).map_or(0, |p| p + 1);
             lists[0].steps.insert(at, FStep::Spawn(1));
             lists[0].steps.insert(at + 1, FStep::Spawn(2));
+            lists[0].steps.insert(at + 2, FStep::Barrier);
+            for t in 1..n {
+                let at = lists[t].steps.iter().position(|s| matches!(s, FStep::Set(_))).map_or(0, |p| p + 1);
+                lists[t].steps.insert(at, FStep::Barrier);
+            }
+            let _ = START.set(std::sync::Barrier::new(n));
         }
         1 => {
             // chain: root -> 1 -> 2
@@ -277,7 +298,7 @@ pub fn cmd_free(kv: &HashMap<String, String>, flags: &[String]) -> Result<i32, S
     };
     let seed = num("--seed", 1)?;
     let plan_ix = num("--plan", 0)?;
-    let steps = num("--steps", 4)? as usize;
+    let steps = num("--steps", 8)? as usize;
     let verbose = flags.iter().any(|f| f == "--verbose");
     // silent hook for the expected panics of the real code
     std::panic::set_hook(Box::new(|_| {}));
